@@ -355,7 +355,11 @@ func checkSummary(f *ssa.Function, sm *dataflow.SummaryGraph, fi *dataflow.FlowI
 				for _, m := range pm {
 					if !have[fmt.Sprintf("%p|%s", m.Mark, m.AccessPath)] {
 						pos := f.Prog.Fset.Position(i.Pos())
-						add("state-not-closed", fmt.Sprintf("function %s: origin %s attached to value %s after %q is not attached after its successor %q (%s:%d)",
+						kind := strings.TrimPrefix(fmt.Sprintf("%T", p), "*ssa.")
+						if _, isGlobal := v.(*ssa.Global); isGlobal {
+							kind += ":global-operand"
+						}
+						add("state-not-closed:"+kind, fmt.Sprintf("function %s: origin %s attached to value %s after %q is not attached after its successor %q (%s:%d)",
 							f.String(), m.Mark.String(), v.Name(), p.String(), i.String(), filepath.Base(pos.Filename), pos.Line))
 						return
 					}
